@@ -5,6 +5,7 @@ import (
 	"encoding/json"
 	"errors"
 	"fmt"
+	"github.com/ipld/go-ipld-prime/traversal/selector"
 	"strings"
 
 	"github.com/ipld/go-ipld-prime/traversal"
@@ -75,11 +76,62 @@ func isSubseqPrefixClass(exp, got []trav.Visit) string {
 	return "differs"
 }
 
+// checkOnceFromStart: visit-once together with a start path. The property quantifies the controls
+// one at a time, so only what each clause says on its own is required of the combination: no link
+// is loaded twice, and the visits are a subsequence of what the start path alone yields.
+func checkOnceFromStart(b *trav.Built, c Case, u trav.RefWalk, sel selector.Selector) (fs []core.Finding, outcome string) {
+	where := fmt.Sprintf("selector %s over %s, start-at %q with visit-once", c.Sel, c.Graph, c.Path)
+	p := strings.Join(c.Path, "/")
+	i0 := -1
+	for i := range u.Visits {
+		if u.Visits[i].Path == p {
+			i0 = i
+			break
+		}
+	}
+	if i0 < 0 || u.Err != "" {
+		return nil, "start-path-not-visited"
+	}
+	o := trav.NoOpts()
+	o.HaveStartAt, o.StartAt, o.Once = true, c.Path, true
+	got := trav.RunWalk(b, b.Root, sel, o)
+	if strings.HasPrefix(got.Err, "PANIC") {
+		return []core.Finding{core.F("start-at+once/panic("+got.Err+")", "%s: %s", where, got.Err)}, "panic"
+	}
+	seen := map[string]bool{}
+	for _, l := range got.Loads {
+		if seen[l] {
+			fs = append(fs, core.F("start-at+once/link-loaded-twice", "%s: loads %x", where, short(got.Loads)))
+			break
+		}
+		seen[l] = true
+	}
+	tail := u.Visits[i0:]
+	j := 0
+	for _, v := range got.Visits {
+		for j < len(tail) && key(tail[j]) != key(v) {
+			j++
+		}
+		if j == len(tail) {
+			fs = append(fs, core.F("start-at+once/not-a-subsequence-of-the-start-at-walk", "%s: start-at alone visits %s, with visit-once %s", where, paths(tail), paths(got.Visits)))
+			break
+		}
+		j++
+	}
+	if len(fs) > 0 {
+		return fs, "bad"
+	}
+	return nil, "ok:start-at+once"
+}
+
 // CheckControl runs one restricted walk and compares with what the unrestricted walk u implies.
 func CheckControl(b *trav.Built, c Case, u trav.RefWalk) (fs []core.Finding, outcome string) {
 	sel, err := c.Sel.Compile()
 	if err != nil {
 		return nil, "uncompilable"
+	}
+	if c.Control == "start-at+once" {
+		return checkOnceFromStart(b, c, u, sel)
 	}
 	where := fmt.Sprintf("selector %s over %s, %s", c.Sel, c.Graph, c.Control)
 	U, Lk := u.Visits, u.Loads
@@ -321,7 +373,7 @@ func graphs(quick bool) []trav.GraphSpec {
 func Main(r *core.Run) {
 	quick := r.Quick()
 	gs, ss := graphs(quick), selectors(quick)
-	r.Rule(fmt.Sprintf("for every (graph, selector) of %d graphs (trees ≤%d nodes, every cut ≤%d into blocks, dangling and repeated links) × %d selectors whose unrestricted real walk equals the reference: every node budget 0..|U|+1, every link budget 0..|Lk|+1, a start-at path for every visit of U, LinkVisitOnlyOnce, and every set of ≤2 (quick) / ≤3 links answered SkipMe; node budgets, link budgets and visit-once also on the transforming walk (identity function; its callbacks = the matched visits). Non-trivial = restricted walk differs from the unrestricted one; distinct by (graph, selector, control setting).", len(gs), map[bool]int{true: 4, false: 5}[quick], map[bool]int{true: 2, false: 3}[quick], len(ss)))
+	r.Rule(fmt.Sprintf("for every (graph, selector) of %d graphs (trees ≤%d nodes, every cut ≤%d into blocks, dangling and repeated links) × %d selectors whose unrestricted real walk equals the reference: every node budget 0..|U|+1, every link budget 0..|Lk|+1, a start-at path for every visit of U, LinkVisitOnlyOnce, and every set of ≤2 (quick) / ≤3 links answered SkipMe; visit-once together with each start path (only what each clause says on its own: no link loaded twice, a subsequence of the start-at walk); node budgets, link budgets and visit-once also on the transforming walk (identity function; its callbacks = the matched visits). Non-trivial = restricted walk differs from the unrestricted one; distinct by (graph, selector, control setting).", len(gs), map[bool]int{true: 4, false: 5}[quick], map[bool]int{true: 2, false: 3}[quick], len(ss)))
 	r.Assume("the unrestricted sequence U, its loads and the block each visit lies in come from the reference denotation and are used only where the real unrestricted walk equals it (otherwise the pair is counted as skipped and left to C07)")
 	var skippedPairs, pairs int64
 	core.ParallelFor(len(gs), func(gi int) {
@@ -412,6 +464,9 @@ func Main(r *core.Run) {
 					continue
 				}
 				run(Case{Control: "start-at", Path: strings.Split(v.Path, "/")})
+				if len(u.Loads) >= 2 {
+					run(Case{Control: "start-at+once", Path: strings.Split(v.Path, "/")})
+				}
 				if i > 0 {
 					nt++
 				}
